@@ -43,7 +43,7 @@ m = {
  "engines": [{"name": "gocv", "path": "/verif/engine", "serves_properties": sorted(CLAIMS), "kind_free_text": "verification-condition generator over go/ssa of /repo's real function bodies (contracts as //@ comments in build-tagged files), SMT back ends z3-new / z3 / cvc5"}],
  "checks": checks,
  "not_applicable": na,
- "notes": "Contract-based deductive verification only. See DESIGN.md; known findings in known_findings.json.",
+ "notes": "Contract-based deductive verification only. See DESIGN.md; known findings in known_findings.json. Quick tier: all obligations, 30 s per obligation. Thorough tier: 120 s per obligation, and the replay tests of the repaired defects (replay/index.json) are run against the real code with go test -overlay, so a repaired defect that returns is reported with its failing input.",
 }
 json.dump(m, open('/verif/MANIFEST.json','w'), indent=1)
 print("claimed:", sorted(CLAIMS), "not applicable:", [x['property_id'] for x in na])
